@@ -33,8 +33,12 @@ import numpy as np
 from core import Driver, Failure, q
 
 ID = "C19"
-PROOF_MODULES = ["PyribsProofs.C19"]
+from genf import translate  # noqa: E402,F401  (regenerates lean/PyribsGen/Formulas.lean from the tree under check)
+PROOF_MODULES = ["PyribsProofs.C19", "PyribsGen.Formulas", "PyribsProofs.GenFOpt"]
 THEOREMS = [
+    # update rules of the gradient optimizers, regenerated from the source (harness/translate/formulas.py)
+    "Pyribs.GenFProofs.ascent_matches",
+    "Pyribs.GenFProofs.adam_matches",
     "Pyribs.C19.branch_in_span",
     "Pyribs.C19.branch_sub_theta",
     "Pyribs.C19.branch_zero_jacobian",
